@@ -12,10 +12,14 @@
 
    Guard of the tick-injection statement: lcd.animate calls placed before the main loop.  A call
    inside `while True:` gets a state variable but no tick call (C18_tick_injected_refuted,
-   finding F-C18-animate-in-loop-never-ticked). *)
+   finding F-C18-animate-in-loop-never-ticked).
+   Device/DLCDInject.v brings the block structure of the script inside the model: call sites sit at any
+   depth inside if/elif/else, while, for and try/except bodies; the parser's name collection and the
+   emitter's registration walk are two independent recursive walks over it (the C18_nested theorems). *)
 From Coq Require Import ZArith List Bool.
 From RV Require Import Host.LCDAnim Device.DLCDAnim Proofs.LCDAnimP Proofs.LCDAnimP2.
 From RV Require Import Gen.LcdAnimTables Proofs.LCDAnimG Proofs.LCDAnimP3 Proofs.LCDAnimP4.
+From RV Require Import Device.DLCDInject Proofs.LCDInjectP.
 Import ListNotations.
 Open Scope Z_scope.
 
@@ -159,6 +163,85 @@ Theorem C18_setup_site_ticked :
   In (n, count_name n pre, sty) (loop_ticks setup loop) /\ NoDup (loop_ticks setup loop).
 Proof. exact setup_site_ticked. Qed.
 Print Assumptions C18_setup_site_ticked.
+
+(* -------------------------------------------- tick injection over the block structure of the script *)
+
+(* the parser's collection of animated displays and the emitter's registration walk, both recursing
+   through every body of every block kind (if/elif/else branches, while and for bodies, try body and
+   every except handler), compute the flat rule on the call sites taken in source order *)
+Theorem C18_nested_walks_refine_flat_rule :
+  forall setup loop : list stmt,
+  tree_loop_ticks setup loop = loop_ticks (flats setup) (flats loop) /\
+  tree_all_vars setup loop = all_vars (flats setup) (flats loop) /\
+  parser_ticks setup loop = sorted_set (map fst (flats setup ++ flats loop)).
+Proof. exact nested_walks_refine. Qed.
+Print Assumptions C18_nested_walks_refine_flat_rule.
+
+(* "the call sites in source order" misses nothing: it contains exactly the lcd.animate statements that
+   occur in the block at any depth, inside any body of any block *)
+Theorem C18_nested_sites_are_all_occurrences :
+  forall (n : Z) (sty : style) (b : list stmt), In (n, sty) (flats b) <-> occurs (SAnim n sty) b.
+Proof. exact flats_occurs_iff. Qed.
+Print Assumptions C18_nested_sites_are_all_occurrences.
+
+(* every call site before the main loop, however deeply nested and in whatever kind of body (an except
+   handler included), has its own state variable ticked at the head of loop(), and no tick call is
+   emitted twice; other call sites in the main loop do not disturb this *)
+Theorem C18_nested_site_ticked :
+  forall (setup loop : list stmt) (pre : list site) (n : Z) (sty : style) (post : list site),
+  flats setup = pre ++ (n, sty) :: post ->
+  In (n, count_name n pre, sty) (tree_loop_ticks setup loop) /\ NoDup (tree_loop_ticks setup loop).
+Proof. exact tree_site_ticked. Qed.
+Print Assumptions C18_nested_site_ticked.
+
+(* ... stated on occurrences: a display/style pair is ticked iff an lcd.animate of that display with that
+   style occurs somewhere before the main loop *)
+Theorem C18_nested_occurrence_ticked :
+  forall (setup loop : list stmt) (n : Z) (sty : style),
+  occurs (SAnim n sty) setup <-> exists k, In (n, k, sty) (tree_loop_ticks setup loop).
+Proof. exact tree_occurrence_ticked_iff. Qed.
+Print Assumptions C18_nested_occurrence_ticked.
+
+(* no spurious tick: every tick call is the tick of one particular call site (the k-th of its display) *)
+Theorem C18_nested_tick_has_site :
+  forall (setup loop : list stmt) (n k : Z) (sty : style),
+  In (n, k, sty) (tree_loop_ticks setup loop) ->
+  exists pre post, flats setup = pre ++ (n, sty) :: post /\ k = count_name n pre.
+Proof. exact tree_tick_has_site. Qed.
+Print Assumptions C18_nested_tick_has_site.
+
+(* guard as before (no lcd.animate inside the main loop): loop() ticks exactly the declared variables *)
+Theorem C18_nested_tick_injected_partial :
+  forall setup : list stmt,
+  tree_loop_ticks setup [] = tree_all_vars setup [] /\ NoDup (tree_loop_ticks setup []).
+Proof. exact tree_injected_partial. Qed.
+Print Assumptions C18_nested_tick_injected_partial.
+
+(* ... and outside it: a call site anywhere inside the main loop (nested or not) is declared, never ticked *)
+Theorem C18_nested_loop_site_never_ticked :
+  forall (setup loop : list stmt) (pre : list site) (n : Z) (sty : style) (post : list site),
+  flats loop = pre ++ (n, sty) :: post ->
+  In (n, count_name n (flats setup) + count_name n pre, sty) (tree_all_vars setup loop) /\
+  forall sty', ~ In (n, count_name n (flats setup) + count_name n pre, sty') (tree_loop_ticks setup loop).
+Proof. exact tree_loop_site_never_ticked. Qed.
+Print Assumptions C18_nested_loop_site_never_ticked.
+
+(* non-vacuity: display 0 animates in a try body, display 1 only inside a for loop inside the second
+   except handler, the whole try inside an if - both are ticked *)
+Example C18_ex_handler_only_display_ticked :
+  occurs (SAnim 1 Blink) ex_handler_tree /\
+  flats ex_handler_tree = [(0, Scroll); (1, Blink)] /\
+  tree_loop_ticks ex_handler_tree [SOther] = [(0, 0, Scroll); (1, 0, Blink)].
+Proof. exact ex_handler_ticked. Qed.
+Print Assumptions C18_ex_handler_only_display_ticked.
+
+(* the statements discriminate: a name collection that descends into try bodies but not into handlers
+   yields no LCDTick for display 1 on that script *)
+Example C18_ex_forgetful_walk_differs :
+  sorted_set (fold_left (fun a s => pnames_no_handlers s a) ex_handler_tree []) = [0] /\
+  parser_ticks ex_handler_tree [] = [0; 1].
+Proof. exact ex_forgetful_walk_differs. Qed.
+Print Assumptions C18_ex_forgetful_walk_differs.
 
 (* ---------------------------------------------------- several animations on one display (device) *)
 
